@@ -288,6 +288,8 @@ func runC10(p *Prog, r *Report, tier string) {
 		}
 		r.Check(okPrune, "R-TIMER.prune", fnKey(del)+": empty domain pruned", p.pos(del.Pos()), "delete(templatesMap, obsDomainID) when the inner map became empty", "an emptied observation-domain map is not removed", false)
 	}
+	// the expiry decision and the deletion (and a refresh's expiry update and re-arm) are one critical section each
+	checkSingleSection(p, r, "R-LOCK.whole-op", cpMutex, "pkg/collector", "addTemplate", "deleteTemplateWithConds", "getTemplateIEs")
 	// (4) lockset for the template fields
 	gs := collectorGuardSpec()
 	accs, _, _ := runGuardedBy(p, gs)
